@@ -35,3 +35,33 @@ Section CtlProofs.
   Lemma ctl_clear_skip_ok s : skp (clear_skip s) = false /\ stopped mx (clear_skip s) = stopped mx s.
   Proof. split; reflexivity. Qed.
 End CtlProofs.
+
+(** the control functions never move the line monitor: the matcher of the control fragment satisfies the one hypothesis the
+    source-level step theorem (Run/RunSrcEq.consider_line_src_eq) makes about a matcher *)
+Section CtlPln.
+  Variable c : cfg.
+  Lemma do_act_pln a s : pln mx (do_act a s) = pln mx s.
+  Proof. destruct a; cbn; try reflexivity; destruct (frozen mx s); reflexivity. Qed.
+  Lemma eval_pln cm s : pln mx (fst (eval c cm s)) = pln mx s.
+  Proof.
+    destruct cm as [a|cd nc a|cd|cd a]; cbn [eval fst].
+    - apply do_act_pln.
+    - destruct (eval_cond c cd s); [|reflexivity]. destruct (is_last_cond cd); cbn [fst]; [|apply do_act_pln].
+      unfold with_frozen. cbn [pln]. rewrite do_act_pln. reflexivity.
+    - reflexivity.
+    - destruct (frozen mx s); [reflexivity|]. destruct (eval_cond c cd s); cbn [fst]; [apply do_act_pln|reflexivity].
+  Qed.
+  Lemma do_lasts_pln : forall cs s, pln mx (do_lasts c cs s) = pln mx s.
+  Proof.
+    induction cs as [|cm cs IH]; intros s; [reflexivity|]. destruct cm as [a|cd nc a|cd|cd a]; cbn [do_lasts]; try apply IH.
+    destruct cd; try apply IH. rewrite IH. apply eval_pln.
+  Qed.
+  Theorem ctl_m_pln q_skip cs s l : pln mx (fst (ctl_m c q_skip cs s l)) = pln mx s.
+  Proof.
+    unfold ctl_m. destruct (oeqb (end_line c) (pln mx s) && is_nil l); [apply do_lasts_pln|]. unfold matches.
+    pose proof (adj_inv cst comp (stopped mx) skp clear_skip (eval c) (fun s0 => s0) (fun s0 => pln mx s0 = pln mx s)
+                  (fun _ h => h) (fun _ h => h) q_skip true cs s (negb true)) as K.
+    destruct (adj cst comp (stopped mx) skp clear_skip (eval c) (fun s0 => s0) q_skip true cs s (negb true)) as [[s2 b] ev].
+    cbn [fst] in *. apply K; [|reflexivity]. intros cm _ s0 H. rewrite eval_pln. exact H.
+  Qed.
+End CtlPln.
